@@ -1256,11 +1256,11 @@ func (r *Resolver) addSubscription(triggerID uint64, add *addSubscription) error
 			for _, sub := range trig.snapshotSubscriptions() {
 				sub.writeError(r.errorFormatter, sub.ctx, err, sub.resolve.Response)
 			}
-			r.doneTriggerFromUpdater(triggerID)
+			r.doneTriggerFromUpdater(trig.updater)
 			return
 		}
 
-		r.markTriggerInitialized(triggerID)
+		r.markTriggerInitialized(trig)
 
 		if r.options.Debug {
 			fmt.Printf("resolver:trigger:started:%d\n", triggerID)
@@ -1277,9 +1277,11 @@ func (r *Resolver) getTrigger(id uint64) (*trigger, bool) {
 }
 
 // markTriggerInitialized marks a trigger as initialized and reports it.
-func (r *Resolver) markTriggerInitialized(triggerID uint64) {
-	trig, ok := r.getTrigger(triggerID)
-	if !ok {
+// Trigger ids are re-used: nothing happens if the trigger was removed meanwhile,
+// even if a new trigger is registered under the same id by now.
+func (r *Resolver) markTriggerInitialized(started *trigger) {
+	trig, ok := r.getTrigger(started.id)
+	if !ok || trig != started {
 		return
 	}
 	trig.initialized.Store(true)
@@ -1290,11 +1292,18 @@ func (r *Resolver) markTriggerInitialized(triggerID uint64) {
 
 // doneTriggerFromUpdater performs cleanup for a trigger from a datasource/updater goroutine.
 // It detaches the trigger, runs done toClose (close completed channels), and cancels the trigger context.
-func (r *Resolver) doneTriggerFromUpdater(triggerID uint64) {
+func (r *Resolver) doneTriggerFromUpdater(updater *subscriptionUpdater) {
+	triggerID := updater.triggerID
 	if r.options.Debug {
 		fmt.Printf("resolver:trigger:shutdown:%d\n", triggerID)
 	}
 	r.mu.Lock()
+	// Trigger ids are re-used: a late Done() of a trigger that was already removed
+	// must not tear down the trigger another subscriber registered under the same id.
+	if trig, ok := r.triggers[triggerID]; !ok || trig.updater != updater {
+		r.mu.Unlock()
+		return
+	}
 	res := r.detachTriggerLocked(triggerID)
 	if r.reporter != nil {
 		r.reporter.SubscriptionCountDec(res.removed)
@@ -2004,7 +2013,7 @@ func (s *subscriptionUpdater) Done() {
 	if s.debug {
 		fmt.Printf("resolver:subscription_updater:done:%d\n", s.triggerID)
 	}
-	s.resolver.doneTriggerFromUpdater(s.triggerID)
+	s.resolver.doneTriggerFromUpdater(s)
 }
 
 func (s *subscriptionUpdater) CloseSubscription(id SubscriptionIdentifier) {
